@@ -8,7 +8,6 @@ import (
 	"context"
 	"errors"
 	"fmt"
-	"math/big"
 	"net/http"
 	"sync"
 	"sync/atomic"
@@ -164,6 +163,22 @@ func (w *world) attData(i int, inv string) *phase0.AttestationData {
 	case "target-far":
 		d.Target.Epoch = dutyEpoch + 100000
 		d.Target.Root[1] = invalidMarker
+	case "stale-epoch":
+		// a node that is behind: self-consistent data for a slot of the
+		// previous epoch (target epoch = that slot's epoch, not the requested one's)
+		d.Slot = dutySlot - slotsPerEpoch
+		d.Source.Epoch--
+		d.Target.Epoch = dutyEpoch - 1
+		d.Target.Root[1] = invalidMarker
+	case "stale-far":
+		d.Slot = dutySlot - 10*slotsPerEpoch - 3
+		d.Source.Epoch -= 10
+		d.Target.Epoch = dutyEpoch - 10
+		d.Target.Root[1] = invalidMarker
+	case "ahead-epoch":
+		d.Slot = dutySlot + slotsPerEpoch
+		d.Target.Epoch = dutyEpoch + 1
+		d.Target.Root[1] = invalidMarker
 	case "nil-target":
 		d.Target = nil
 	}
@@ -237,10 +252,11 @@ func (w *world) proposal(i int, inv string) *api.VersionedProposal {
 	if inv != "" {
 		tag = invalidMarker
 	}
+	cv, ev := propValues(v)
 	p := &api.VersionedProposal{
 		Blinded:        blinded,
-		ConsensusValue: big.NewInt(v.B),
-		ExecutionValue: big.NewInt(v.C),
+		ConsensusValue: cv,
+		ExecutionValue: ev,
 	}
 	switch ver {
 	case verAltair:
@@ -315,7 +331,8 @@ func identAtt(d *phase0.AttestationData) ident {
 		return ident{Tag: -1, Invalid: "missing-target"}
 	}
 	id := ident{Tag: int(d.Target.Root[0]) - 1}
-	if uint64(d.Target.Epoch) != uint64(d.Slot)/slotsPerEpoch || d.Slot != dutySlot {
+	// the slot of the statement is the requested (duty) slot
+	if uint64(d.Target.Epoch) != dutySlot/slotsPerEpoch {
 		id.Invalid = "target-epoch-not-slot-epoch"
 	}
 	return id
